@@ -145,6 +145,19 @@ impl ExponentialBackoffPolicy {
         self.wait = wait;
     }
 
+    /// Make the policy `d` older: moves `last_try` into the past, which is what
+    /// the passing of time does to it (the clock itself cannot be injected).
+    pub fn verif_age(&mut self, d: time::Duration) {
+        if let Some(t) = self.last_try.checked_sub(d) {
+            self.last_try = t;
+        }
+    }
+
+    /// Time elapsed since `last_try`.
+    pub fn verif_elapsed(&self) -> time::Duration {
+        self.last_try.elapsed()
+    }
+
     /// A policy created directly in the given state (`last_try` = now).
     pub fn verif_new(max_tries: usize, current_tries: usize, wait: time::Duration) -> Self {
         ExponentialBackoffPolicy {
